@@ -259,14 +259,12 @@ static int url_wellformed(const char *s)
     if (at) {
         const char *uc = memchr(auth, ':', (size_t)(at - auth));
         if (at == auth || uc == auth) return 0;                         /* empty user */
-        if (uc && !hasproto) return 0;                                  /* user:passwd without a protocol reads as proto:... */
         if (uc && uc + 1 == at) return 0;                               /* empty password */
         if (memchr(at + 1, '@', (size_t)(end - at - 1))) return 0;
         hp = at + 1;
     }
     c = memchr(hp, ':', (size_t)(end - hp));
     if (c) {
-        if (!hasproto) return 0;                                        /* host:port without a protocol reads as proto:... */
         if (c == hp || c + 1 == end) return 0;
         for (const char *d = c + 1; d < end; d++) if (!isdigit((unsigned char)*d)) return 0;
     } else if (hp == end) return 0;
@@ -458,8 +456,10 @@ static void gen_c14(plan_t *p, rng_t *r)
         if (wf) {
             int hasproto = rng_chance(r, 3, 4), hashost = rng_chance(r, 5, 6), hasuser, haspw, hasport, haspath, hasquery;
             if (hasproto) hashost = 1; else if (rng_chance(r, 1, 3)) hashost = 0;      /* accepted shape: host is optional only for bare paths */
-            hasuser = hashost && rng_chance(r, 1, 3); haspw = hasuser && hasproto && rng_chance(r, 1, 2);
-            hasport = hashost && hasproto && rng_chance(r, 1, 3);
+            /* (without a protocol, "word:" at the start reads as one if the word is all alphanumeric: whether a text is inside the
+               accepted shape and unambiguous is decided from the text by the executor, not here) */
+            hasuser = hashost && rng_chance(r, 1, 3); haspw = hasuser && (hasproto || rng_chance(r, 1, 2)) && rng_chance(r, 1, 2);
+            hasport = hashost && (hasproto || rng_chance(r, 1, 2)) && rng_chance(r, 1, 3);
             haspath = rng_chance(r, 2, 3) || !hashost; hasquery = rng_chance(r, 1, 3);
             if (rng_chance(r, 1, 4)) {
                 /* the same shape, assembled through the setters instead of parsed from text */
